@@ -57,7 +57,9 @@ def model_runs(quick):
 
 VALUE_KINDS = ["str", "int", "float", "npstr", "series_odd"]
 STRS = ["CASSLGQAYEQYF", "CASSLGQAYEQF", "CAS", "", "x y", "CASSLGQAYEQYF "]
-CELLTEXT = [{1: "A", 2: "B"}, {1: "x", 2: "yz"}, {1: "1", 2: "2"}]
+# variants 2-3 put whole numbers into the first column: small ints and ids of seven digits (distinct only in the 7th significant
+# digit). Floats are outside the property's quantifier (their text contains the join character '.').
+CELLTEXT = [{1: "A", 2: "B"}, {1: "x", 2: "yz"}, {1: "1", 2: "2"}, {1: "1000001", 2: "1000002"}]
 
 
 def sample_of(vals, kind):
@@ -86,9 +88,15 @@ def table_of(rows, variant):
     import pandas as pd
     m = CELLTEXT[variant % len(CELLTEXT)]
     ncol = len(rows[0]) if rows else 0
-    numeric = variant % len(CELLTEXT) == 2
+    v = variant % len(CELLTEXT)
+    numeric = v in (2, 3)
     cols = [["CDR3A", "CDR3B", "TRBV", "extra"][c] for c in range(ncol)]
-    data = {cols[c]: pd.Series([cell_text(r[c], m, numeric and c == 0) for r in rows], dtype=object) for c in range(ncol)}
+    data = {cols[c]: pd.Series([cell_text(r[c], m, numeric if c == 0 else False) for r in rows], dtype=object) for c in range(ncol)}
+    if numeric and ncol and (variant // len(CELLTEXT)) % 2 == 0 and all(r[0] for r in rows):
+        try:
+            data[cols[0]] = pd.Series([cell_text(r[0], m, numeric) for r in rows], dtype="int64")       # a genuinely numeric column
+        except (OverflowError, ValueError):
+            pass
     df = pd.DataFrame(data)
     if variant % 2:
         df.index = [f"r{i}" for i in range(len(rows))][::-1]
